@@ -388,128 +388,120 @@ Proof. repeat split. Qed.
 Lemma setOffset_small r o : o <= r_len r -> setOffset r o = set_offset_raw r o.
 Proof. intros H. unfold setOffset. destruct (r_len r <? o) eqn:E; auto. apply N.ltb_lt in E. lia. Qed.
 
+Lemma name_body_cases n :
+  (n_segs n = [] /\ name_body n = [0]) \/
+  (exists s, n_segs n = [s] /\ n_multi n = false /\ name_body n = seg_bytes s) \/
+  (exists s1 s2, n_segs n = [s1; s2] /\ n_multi n = false /\ name_body n = 0x2e :: seg_bytes s1 ++ seg_bytes s2) \/
+  (n_segs n <> [] /\ name_body n = 0x2f :: lenN (n_segs n) :: flat_map seg_bytes (n_segs n) /\
+   (n_multi n = true \/ 2 < lenN (n_segs n))).
+Proof.
+  unfold name_body. destruct (n_segs n) as [|s1 [|s2 [|s3 rest]]].
+  - left. auto.
+  - destruct (n_multi n) eqn:Em.
+    + right; right; right. split; [discriminate|]. split; [reflexivity|auto].
+    + right; left. exists s1. cbn [flat_map]. rewrite app_nil_r. auto.
+  - destruct (n_multi n) eqn:Em.
+    + right; right; right. split; [discriminate|]. split; [reflexivity|auto].
+    + right; right; left. exists s1, s2. cbn [flat_map]. rewrite app_nil_r. auto.
+  - right; right; right. split; [discriminate|]. split.
+    + assert (E : n_multi n || (2 <? lenN (s1 :: s2 :: s3 :: rest)) = true).
+      { apply orb_true_iff. right. apply N.ltb_lt. rewrite !lenN_cons. lia. }
+      rewrite E. reflexivity.
+    + right. rewrite !lenN_cons. lia.
+Qed.
+
+Lemma w32_id x : x < two32 -> w32 x = x. Proof. apply w32_small. Qed.
+
 Theorem name_roundtrip : forall n r pre post,
   wf_name n -> at_token r pre (enc_name n) post ->
   parseNameString r = Ok (mkSlice (Some (lenN pre)) (name_slice_len n), true, set_offset_raw r (lenN pre + lenN (enc_name n))).
 Proof.
   intros n r pre post (Hcnt & Hlead) T.
   destruct (at_token_facts _ _ _ _ T) as (O & E & Wb & Wc).
-  assert (Hne : 1 <= lenN (name_body n)).
-  { unfold name_body. destruct (n_segs n) as [|s0 segs]; [cbn; lia|].
-    rewrite lenN_app, lenN_flat_seg, lenN_cons. lia. }
-  rewrite enc_name_split, lenN_app in E.
-  unfold parseNameString.
-  assert (HP : dataPtr r = Ok (Some (lenN pre))).
-  { unfold dataPtr, eof. rewrite O.
-    assert (E1 : r_pkgEnd r <=? lenN pre = false) by (apply N.leb_gt; lia). rewrite E1.
-    assert (E2 : lenN pre <? r_len r = true) by (apply N.ltb_lt; lia). rewrite E2. reflexivity. }
-  rewrite HP. cbn [bind]. rewrite O.
-  (* the prefix *)
-  assert (Hbody : exists b rest, name_body n = b :: rest /\ b <> 0x5c /\ b <> 0x5e /\
-                  (n_segs n = [] -> b = 0) /\
-                  (forall s, n_segs n = [s] -> n_multi n = false -> b = seg_lead s)).
-  { unfold name_body. destruct (n_segs n) as [|s0 segs] eqn:Es.
-    - exists 0, []. repeat split; try discriminate; auto.
-    - destruct (n_multi n || (2 <? lenN (s0 :: segs))) eqn:Em.
-      + exists 0x2f. eexists. repeat split; try discriminate.
-        intros s Hs Hm. inversion Hs; subst. rewrite Hm in Em. cbn in Em. discriminate.
-      + destruct (lenN (s0 :: segs) =? 2) eqn:E2.
-        * exists 0x2e. eexists. repeat split; try discriminate.
-          intros s Hs _. inversion Hs; subst. cbn in E2. discriminate.
-        * (* a single segment *)
-          apply orb_false_iff in Em. destruct Em as (Em1 & Em2).
-          assert (segs = []).
-          { apply N.ltb_ge in Em2. apply N.eqb_neq in E2. rewrite lenN_cons in *. destruct segs; [reflexivity|].
-            rewrite lenN_cons in *. lia. }
-          subst segs. cbn [app flat_map]. rewrite app_nil_r.
-          exists (seg_lead s0). eexists. split; [reflexivity|].
-          destruct Hlead as [Hm|Hl]; [congruence|].
-          unfold lead_char in Hl. repeat split; try discriminate; try lia.
-          intros s Hs _. inversion Hs. reflexivity. }
-  destruct Hbody as (b & rest & Eb & Hb1 & Hb2 & Hnull & Hsingle).
-  rewrite enc_name_split, Eb in T.
+  unfold name_slice_len. rewrite enc_name_split in *. rewrite lenN_app in *.
   assert (Hf : (length (name_prefix n) < stream_fuel r)%nat).
   { unfold stream_fuel. destruct T as [D _ _ _]. rewrite D, !app_length. lia. }
-  destruct (skipPrefix_roundtrip _ _ _ _ _ _ _ (name_prefix_chars n) Hb1 Hb2 Hf T) as (SK & T1).
-  rewrite SK. cbn [bind negb].
-  destruct (read_token _ _ _ _ _ T1) as (R & T2). rewrite R. cbn [bind]. rewrite set_offset_raw_twice in *.
-  rewrite lenN_app in *.
-  set (q := lenN pre + lenN (name_prefix n)) in *.
-  rewrite Eb, lenN_cons in E.
-  cbn [r_offset r_pkgEnd set_offset_raw].
-  unfold name_slice_len. rewrite enc_name_split, lenN_app, Eb, lenN_cons.
-  unfold name_body in Eb.
-  destruct (n_segs n) as [|s0 segs] eqn:Es.
+  pose proof (name_prefix_chars n) as Hpc.
+  set (pfx := name_prefix n) in *.
+  set (q := lenN pre + lenN pfx).
+  assert (HP : forall body : list N, 1 <= lenN body -> lenN pre + (lenN pfx + lenN body) <= r_pkgEnd r -> dataPtr r = Ok (Some (lenN pre))).
+  { intros body H1 H2. unfold dataPtr, eof. rewrite O.
+    assert (E1 : r_pkgEnd r <=? lenN pre = false) by (apply N.leb_gt; lia). rewrite E1.
+    assert (E2 : lenN pre <? r_len r = true) by (apply N.ltb_lt; lia). rewrite E2. reflexivity. }
+  unfold parseNameString.
+  destruct (name_body_cases n) as [(Es & Eb)|[(s & Es & Em & Eb)|[(s1 & s2 & Es & Em & Eb)|(Hne & Eb & Hm)]]];
+    rewrite Eb in *; rewrite Es in * || idtac.
   - (* NullName *)
-    assert (Hb : b = 0 /\ rest = []) by (inversion Eb; split; reflexivity).
-    destruct Hb as (Hb & Hr). clear Eb.
-    assert (N0 : b =? 0 = true) by (rewrite Hb; reflexivity). rewrite N0. rewrite Hr in *.
-    change (lenN (@nil N)) with 0 in *.
-    f_equal. f_equal; [f_equal; f_equal; unfold w32, two32 in *; lia|f_equal; lia].
-  - destruct (n_multi n || (2 <? lenN (s0 :: segs))) eqn:Em.
-    + (* MultiNamePath *)
-      assert (Hb : b = 47 /\ rest = lenN (s0 :: segs) :: flat_map seg_bytes (s0 :: segs)) by (inversion Eb; split; reflexivity).
-      destruct Hb as (Hb & Hr). clear Eb.
-      assert (N0 : b =? 0 = false) by (rewrite Hb; reflexivity). rewrite N0.
-      assert (N1 : b =? 46 = false) by (rewrite Hb; reflexivity). rewrite N1.
-      assert (N2 : b =? 47 = true) by (rewrite Hb; reflexivity). rewrite N2.
-      rewrite Hr in *. clear Hr.
-      destruct (read_token _ _ _ _ _ T2) as (R2 & T3). rewrite R2. cbn [bind]. rewrite set_offset_raw_twice in *.
-      assert (Hc0 : lenN (s0 :: segs) =? 0 = false) by (apply N.eqb_neq; rewrite lenN_cons; lia). rewrite Hc0.
-      cbn [r_offset r_pkgEnd set_offset_raw].
-      rewrite !lenN_app in *. change (lenN [47]) with 1 in *.
-      rewrite lenN_cons, lenN_cons, lenN_flat_seg in E.
-      assert (Hw8 : w8 (lenN (s0 :: segs) * aml_amlNameLen) = lenN (s0 :: segs) * 4).
-      { unfold w8, two8, aml_amlNameLen. apply N.mod_small. lia. }
-      rewrite Hw8.
-      assert (Hw32 : w32 (q + 1 + 1 + lenN (s0 :: segs) * 4) = q + 1 + 1 + lenN (s0 :: segs) * 4).
-      { unfold w32, two32 in *. apply N.mod_small. lia. }
-      rewrite Hw32.
-      assert (Hok : r_pkgEnd r <? q + 1 + 1 + lenN (s0 :: segs) * 4 = false) by (apply N.ltb_ge; lia). rewrite Hok.
-      rewrite setOffset_small by (cbn [r_len set_offset_raw]; lia).
-      rewrite set_offset_raw_twice. cbn [r_offset set_offset_raw].
-      rewrite !lenN_cons, lenN_flat_seg.
-      f_equal. f_equal; [f_equal; f_equal; unfold w32, two32 in *; lia|f_equal; rewrite lenN_cons; lia].
-    + destruct (lenN (s0 :: segs) =? 2) eqn:E2.
-      * (* DualNamePath *)
-        assert (Hb : b = 46 /\ rest = flat_map seg_bytes (s0 :: segs)) by (inversion Eb; split; reflexivity).
-        destruct Hb as (Hb & Hr). clear Eb.
-        assert (N0 : b =? 0 = false) by (rewrite Hb; reflexivity). rewrite N0.
-        assert (N1 : b =? 46 = true) by (rewrite Hb; reflexivity). rewrite N1.
-        rewrite Hr in *. clear Hr.
-        apply N.eqb_eq in E2. rewrite lenN_cons, lenN_flat_seg, E2 in E.
-        assert (Hw32 : w32 (q + 1 + w32 (aml_amlNameLen * 2)) = q + 1 + 8).
-        { unfold w32, two32, aml_amlNameLen in *. cbn. apply N.mod_small. lia. }
-        rewrite Hw32.
-        assert (Hok : r_pkgEnd r <? q + 1 + 8 = false) by (apply N.ltb_ge; lia). rewrite Hok.
-        rewrite setOffset_small by (cbn [r_len set_offset_raw]; lia).
-        rewrite set_offset_raw_twice. cbn [r_offset set_offset_raw].
-        rewrite lenN_flat_seg, E2.
-        f_equal. f_equal; [f_equal; f_equal; unfold w32, two32 in *; lia|f_equal; lia].
-      * (* NameSeg *)
-        apply orb_false_iff in Em. destruct Em as (Em1 & Em2).
-        assert (segs = []).
-        { apply N.ltb_ge in Em2. apply N.eqb_neq in E2. rewrite lenN_cons in *. destruct segs; [reflexivity|].
-          rewrite lenN_cons in *. lia. }
-        subst segs. cbn [app flat_map] in Eb. rewrite app_nil_r in Eb.
-        assert (Hbl : b = seg_lead s0) by (apply (Hsingle s0); auto).
-        destruct Hlead as [Hm|Hl]; [congruence|]. unfold lead_char in Hl. rewrite <- Hbl in Hl.
-        assert (N0 : b =? 0 = false) by (apply N.eqb_neq; lia). rewrite N0.
-        assert (N1 : b =? 46 = false) by (apply N.eqb_neq; lia). rewrite N1.
-        assert (N2 : b =? 47 = false) by (apply N.eqb_neq; lia). rewrite N2.
-        assert (N3 : ((b <? 65) || (90 <? b)) && negb (b =? 95) = false).
-        { destruct Hl as [Hl| ->]; [|reflexivity].
-          assert (b <? 65 = false) by (apply N.ltb_ge; lia). assert (90 <? b = false) by (apply N.ltb_ge; lia).
-          rewrite H, H0. reflexivity. }
-        rewrite N3.
-        assert (Hrest : lenN rest = 3).
-        { assert (lenN (b :: rest) = 4) by (rewrite <- Eb; reflexivity). rewrite lenN_cons in H. lia. }
-        rewrite Hrest in E.
-        assert (Hw32 : w32 (q + 1 + w32 (aml_amlNameLen - 1)) = q + 1 + 3).
-        { unfold w32, two32, aml_amlNameLen in *. cbn. apply N.mod_small. lia. }
-        rewrite Hw32.
-        assert (Hok : r_pkgEnd r <? q + 1 + 3 = false) by (apply N.ltb_ge; lia). rewrite Hok.
-        rewrite setOffset_small by (cbn [r_len set_offset_raw]; lia).
-        rewrite set_offset_raw_twice. cbn [r_offset set_offset_raw]. rewrite Hrest.
-        f_equal. f_equal; [f_equal; f_equal; unfold w32, two32 in *; lia|f_equal; lia].
+    rewrite (HP [0]) by (change (lenN [0]) with 1 in *; lia). cbn [bind]. rewrite O.
+    destruct (skipPrefix_roundtrip pfx _ _ _ 0 [] post Hpc ltac:(discriminate) ltac:(discriminate) Hf T) as (SK & T1).
+    rewrite SK. cbn [bind negb].
+    destruct (read_token _ _ _ _ _ T1) as (R & _). rewrite R. cbn [bind]. rewrite set_offset_raw_twice.
+    rewrite lenN_app. fold q. change (0 =? 0) with true. cbn iota.
+    cbn [r_offset set_offset_raw]. change (lenN [0]) with 1 in *.
+    f_equal. f_equal; [f_equal; f_equal; unfold w32, two32, q in *; lia|f_equal; unfold q; lia].
+  - (* NameSeg *)
+    assert (Hs4 : exists b0 b1 b2 b3, seg_bytes s = [b0; b1; b2; b3] /\ b0 = seg_lead s) by (unfold seg_bytes, seg_lead; eauto 10).
+    destruct Hs4 as (b0 & b1 & b2 & b3 & E4 & Eb0). rewrite E4 in *.
+    destruct Hlead as [Hm|Hl]; [congruence|]. unfold lead_char in Hl. rewrite <- Eb0 in Hl.
+    change (lenN [b0; b1; b2; b3]) with 4 in *.
+    rewrite (HP [b0; b1; b2; b3]) by (change (lenN [b0; b1; b2; b3]) with 4; lia). cbn [bind]. rewrite O.
+    destruct (skipPrefix_roundtrip pfx _ _ _ b0 [b1; b2; b3] post Hpc ltac:(lia) ltac:(lia) Hf T) as (SK & T1).
+    rewrite SK. cbn [bind negb].
+    destruct (read_token _ _ _ _ _ T1) as (R & _). rewrite R. cbn [bind]. rewrite set_offset_raw_twice.
+    rewrite lenN_app. fold q.
+    assert (N0 : b0 =? 0 = false) by (apply N.eqb_neq; lia). rewrite N0.
+    assert (N1 : b0 =? 46 = false) by (apply N.eqb_neq; lia). rewrite N1.
+    assert (N2 : b0 =? 47 = false) by (apply N.eqb_neq; lia). rewrite N2.
+    assert (N3 : ((b0 <? 65) || (90 <? b0)) && negb (b0 =? 95) = false).
+    { destruct Hl as [Hl| ->]; [|reflexivity].
+      assert (H1 : b0 <? 65 = false) by (apply N.ltb_ge; lia). assert (H2 : 90 <? b0 = false) by (apply N.ltb_ge; lia).
+      rewrite H1, H2. reflexivity. }
+    rewrite N3. cbn [r_offset r_pkgEnd set_offset_raw].
+    change (w32 (aml_amlNameLen - 1)) with 3.
+    rewrite w32_id by (unfold two32 in *; unfold q; lia).
+    assert (Hok : r_pkgEnd r <? q + 1 + 3 = false) by (apply N.ltb_ge; unfold q; lia). rewrite Hok.
+    rewrite setOffset_small by (cbn [r_len set_offset_raw]; unfold q; lia).
+    rewrite set_offset_raw_twice. cbn [r_offset set_offset_raw].
+    f_equal. f_equal; [f_equal; f_equal; unfold w32, two32, q in *; lia|f_equal; unfold q; lia].
+  - (* DualNamePath *)
+    assert (H8 : lenN (seg_bytes s1 ++ seg_bytes s2) = 8) by reflexivity.
+    rewrite lenN_cons, H8 in *.
+    rewrite (HP (46 :: seg_bytes s1 ++ seg_bytes s2)) by (rewrite lenN_cons, H8; lia). cbn [bind]. rewrite O.
+    destruct (skipPrefix_roundtrip pfx _ _ _ 46 _ post Hpc ltac:(discriminate) ltac:(discriminate) Hf T) as (SK & T1).
+    rewrite SK. cbn [bind negb].
+    destruct (read_token _ _ _ _ _ T1) as (R & _). rewrite R. cbn [bind]. rewrite set_offset_raw_twice.
+    rewrite lenN_app. fold q. change (46 =? 0) with false. change (46 =? 46) with true. cbn iota.
+    cbn [r_offset r_pkgEnd set_offset_raw].
+    change (w32 (aml_amlNameLen * 2)) with 8.
+    rewrite w32_id by (unfold two32 in *; unfold q; lia).
+    assert (Hok : r_pkgEnd r <? q + 1 + 8 = false) by (apply N.ltb_ge; unfold q; lia). rewrite Hok.
+    rewrite setOffset_small by (cbn [r_len set_offset_raw]; unfold q; lia).
+    rewrite set_offset_raw_twice. cbn [r_offset set_offset_raw].
+    f_equal. f_equal; [f_equal; f_equal; unfold w32, two32, q in *; lia|f_equal; unfold q; lia].
+  - (* MultiNamePath *)
+    set (cnt := lenN (n_segs n)) in *.
+    assert (Hcnt1 : 1 <= cnt).
+    { unfold cnt. destruct (n_segs n); [congruence|]. rewrite lenN_cons. lia. }
+    assert (HL : lenN (47 :: cnt :: flat_map seg_bytes (n_segs n)) = 2 + cnt * 4).
+    { rewrite !lenN_cons, lenN_flat_seg. fold cnt. lia. }
+    rewrite HL in *.
+    assert (Hnz : match n_segs n with [] => lenN pfx + (2 + cnt * 4) - 1 | _ => lenN pfx + (2 + cnt * 4) end = lenN pfx + (2 + cnt * 4)).
+    { destruct (n_segs n); [congruence|reflexivity]. }
+    rewrite (HP (47 :: cnt :: flat_map seg_bytes (n_segs n))) by (rewrite HL; lia). cbn [bind]. rewrite O.
+    destruct (skipPrefix_roundtrip pfx _ _ _ 47 _ post Hpc ltac:(discriminate) ltac:(discriminate) Hf T) as (SK & T1).
+    rewrite SK. cbn [bind negb].
+    destruct (read_token _ _ _ _ _ T1) as (R & T2). destruct (read_token _ _ _ _ _ T2) as (R2 & _).
+    rewrite R. cbn [bind]. change (47 =? 0) with false. change (47 =? 46) with false. change (47 =? 47) with true. cbn iota.
+    rewrite R2. cbn [bind]. rewrite !set_offset_raw_twice.
+    rewrite !lenN_app. change (lenN [47]) with 1. fold q.
+    assert (Hc0 : cnt =? 0 = false) by (apply N.eqb_neq; lia). rewrite Hc0.
+    cbn [r_offset r_pkgEnd set_offset_raw].
+    assert (Hw8 : w8 (cnt * aml_amlNameLen) = cnt * 4).
+    { unfold w8, two8, aml_amlNameLen. apply N.mod_small. lia. }
+    rewrite Hw8.
+    rewrite w32_id by (unfold two32 in *; unfold q; lia).
+    assert (Hok : r_pkgEnd r <? q + 1 + 1 + cnt * 4 = false) by (apply N.ltb_ge; unfold q; lia). rewrite Hok.
+    rewrite setOffset_small by (cbn [r_len set_offset_raw]; unfold q; lia).
+    rewrite set_offset_raw_twice. cbn [r_offset set_offset_raw].
+    f_equal. f_equal; [f_equal; f_equal; rewrite Hnz; unfold w32, two32, q in *; lia|f_equal; unfold q; lia].
 Qed.
